@@ -188,14 +188,15 @@ func decodeTwoRegistersAndTwoImmediates(instructionCode []byte, pc ProgramCounte
 	lX := ProgramCounter(min(4, instructionCode[pc+2]%8))
 	lY := min(4, max(0, skipLength-lX-2))
 
+	// both immediates are sign-extended (GP A.5.12: vX = X_lX(...), vY = X_lY(...))
 	vXData := instructionCode[pc+3 : pc+3+lX]
-	vX, _, err := ReadUintFixed(vXData, len(vXData))
+	vX, _, err := ReadUintSignExtended(vXData, len(vXData))
 	if err != nil {
 		return 0, 0, 0, 0, err
 	}
 
 	vYData := instructionCode[pc+3+lX : pc+3+lX+lY]
-	vY, _, err := ReadUintFixed(vYData, len(vYData))
+	vY, _, err := ReadUintSignExtended(vYData, len(vYData))
 	if err != nil {
 		return 0, 0, 0, 0, err
 	}
